@@ -76,6 +76,24 @@ pub fn programs(ctx: &Ctx, salt: u64) -> Vec<Program> {
                 v.push(single_file(layers, 1, Sz::new(1, 1, 5), DataKind::Random, ctx.seed ^ 4));
             }
         }
+        // a name of exactly the format limit (65536 bytes), one byte less, then an ordinary entry
+        for (i, layers) in LAYER_COMBOS.into_iter().enumerate() {
+            if ctx.quick() && i % 2 == 1 {
+                continue;
+            }
+            v.push(Program {
+                layers,
+                level: 1,
+                nrecip: 1,
+                files: vec![
+                    FileSpec { name: NameKind::Long(65536), data: DataKind::Text },
+                    FileSpec { name: NameKind::Long(65535), data: DataKind::Random },
+                    FileSpec { name: NameKind::Plain(7), data: DataKind::Text },
+                ],
+                ops: vec![Op::Add(0, Sz::lit(300)), Op::Add(1, Sz::lit(40)), Op::Add(2, Sz::lit(1000)), Op::Finalize],
+                seed: ctx.seed ^ 0x10D6,
+            });
+        }
         // steered shapes: the first compressed block ends right after an encryption chunk edge /
         // an edge of the repair reader's input window, its last byte not needed by the decoder
         use crate::shapes::{block_end, Grid};
@@ -92,8 +110,11 @@ pub fn programs(ctx: &Ctx, salt: u64) -> Vec<Program> {
 pub fn cases(ctx: &Ctx, salt: u64) -> Vec<Case> {
     let k = ctx.k;
     let mut out = Vec::new();
-    for p in programs(ctx, salt) {
+    for (pi, p) in programs(ctx, salt).into_iter().enumerate() {
         let lay = layout(&p, &k);
+        // archives of another writer of the format (file ids that are not 0, 1, 2 ...): a few
+        // programs with several files are swept a second time in that form
+        let foreign_twin = p.files.len() >= 2 && p.total_bytes(&k) as u64 <= 3 * k.block && pi % 3 == 0;
         if !k.is_prod() {
             let est = lay.stream_len as usize + 200 + (lay.stream_len / k.chunk) as usize * 16;
             if est > 5 * k.block as usize {
@@ -101,7 +122,10 @@ pub fn cases(ctx: &Ctx, salt: u64) -> Vec<Case> {
             }
             let nseg = est.div_ceil(500).max(1);
             for s in 0..nseg {
-                out.push(Case { prog: p.clone(), cuts: CutSel::All, seg: (s, nseg) });
+                out.push(Case { prog: p.clone(), cuts: CutSel::All, seg: (s, nseg), foreign: None });
+                if foreign_twin {
+                    out.push(Case { prog: p.clone(), cuts: CutSel::All, seg: (s, nseg), foreign: Some((ctx.seed ^ pi as u64, 1 + (pi % 2) as u8)) });
+                }
             }
         } else {
             let radius = 40u32;
@@ -110,7 +134,10 @@ pub fn cases(ctx: &Ctx, salt: u64) -> Vec<Case> {
             let est_cuts = nreg * (2 * radius as usize + 1) + samples as usize;
             let nseg = est_cuts.div_ceil(300).max(1);
             for s in 0..nseg {
-                out.push(Case { prog: p.clone(), cuts: CutSel::Windows { radius, samples, sseed: ctx.seed ^ p.fingerprint() }, seg: (s, nseg) });
+                out.push(Case { prog: p.clone(), cuts: CutSel::Windows { radius, samples, sseed: ctx.seed ^ p.fingerprint() }, seg: (s, nseg), foreign: None });
+                if foreign_twin {
+                    out.push(Case { prog: p.clone(), cuts: CutSel::Windows { radius, samples, sseed: ctx.seed ^ p.fingerprint() }, seg: (s, nseg), foreign: Some((ctx.seed ^ pi as u64, 1 + (pi % 2) as u8)) });
+                }
             }
         }
     }
